@@ -5,6 +5,7 @@ import (
 	"go/ast"
 	"go/token"
 	"go/types"
+	"sort"
 	"strings"
 )
 
@@ -974,17 +975,36 @@ func checkPersistForward(r *Run, k *kvCtx) {
 	ok := false
 	detail := ""
 	if len(calls) == 1 {
+		// truth table (E17) over "commitTo failed": the forward flag is its negation
 		ev := errVarOfCall(ps, calls[0])
-		inspectNoLit(ps.Body, func(x ast.Node) bool {
-			ret, isRet := x.(*ast.ReturnStmt)
-			if !isRet || len(ret.Results) != 3 {
-				return true
+		classify := func(e2 *ttEval, st *ttState, f *FuncNode, e ast.Expr) (string, bool, bool) {
+			if f != ps {
+				return "", false, false
 			}
-			detail = types.ExprString(ret.Results[1])
-			o, trueMeansNil, isCmp := nilCompare(ps, ret.Results[1])
-			ok = isCmp && o == ev && trueMeansNil
-			return true
-		})
+			if o, trueMeansNil, isCmp := nilCompare(f, e); isCmp && o == ev && ev != nil {
+				return "failed", trueMeansNil, true
+			}
+			return "", false, false
+		}
+		outcome := func(f *FuncNode, ret *ast.ReturnStmt, results []ttVal) string {
+			if len(results) != 3 {
+				return "other"
+			}
+			switch results[1] {
+			case ttT:
+				return "forward"
+			case ttF:
+				return "drop"
+			}
+			return "unknown"
+		}
+		table, bad := ttTable(p, ps, []string{"failed"}, classify, outcome, false, func(f *types.Func) bool { return f == k.commitTo.Obj })
+		if bad == "" {
+			ok = table[0]["forward"] && !table[0]["drop"] && !table[0]["unknown"] && table[1]["drop"] && !table[1]["forward"] && !table[1]["unknown"]
+			detail = fmt.Sprintf("commitTo succeeded -> %v; failed -> %v", keysOf(table[0]), keysOf(table[1]))
+		} else {
+			detail = bad
+		}
 	}
 	r.Ob("C13.R2.dedup", "persist forwards a request iff commitTo returned nil", p.Position(ps.Pos()), ok, "forward flag: "+detail)
 	// commitTo: named error result receives the Commit error in the deferred closure
@@ -1029,16 +1049,46 @@ func checkPersistForward(r *Run, k *kvCtx) {
 				return true
 			})
 		}
-		// the function's plain returns must return the named result (not a fresh nil)
-		inspectNoLit(fn.Body, func(x ast.Node) bool {
-			if ret, ok := x.(*ast.ReturnStmt); ok && len(ret.Results) == 1 {
-				if objOf(fn, ret.Results[0]) != named {
-					okCommit = false
-					why = "commitTo returns " + types.ExprString(ret.Results[0]) + " instead of its named result"
+		// the function's plain returns must return the named result; a literal nil is the same
+		// value only where the named result is certainly nil (every assignment since was
+		// followed by its nil edge)
+		fc := p.CFG(fn)
+		badRet := fc.boolStateSearch([]Point{fc.Entry()}, false,
+			func(n ast.Node, maybe bool) (bool, bool) {
+				if as, ok := n.(*ast.AssignStmt); ok {
+					for i, l := range as.Lhs {
+						if objOf(fn, l) == named {
+							if len(as.Lhs) == len(as.Rhs) && isNilIdent(fn, as.Rhs[i]) {
+								return false, false
+							}
+							return true, false
+						}
+					}
 				}
-			}
-			return true
-		})
+				return maybe, false
+			},
+			func(cond ast.Expr, val bool, maybe bool) bool {
+				for _, f := range condFacts(fn, cond, val, 0) {
+					if o, trueMeansNil, ok := nilCompare(fn, f.Atom); ok && o == named {
+						return f.Val != trueMeansNil
+					}
+				}
+				return maybe
+			},
+			func(n ast.Node, maybe bool) bool {
+				ret, ok := n.(*ast.ReturnStmt)
+				if !ok || len(ret.Results) != 1 || objOf(fn, ret.Results[0]) == named {
+					return false
+				}
+				if isNilIdent(fn, ret.Results[0]) && !maybe {
+					return false
+				}
+				return true
+			})
+		if badRet != nil {
+			okCommit = false
+			why = "commitTo returns something other than its named result at " + badRet[len(badRet)-1]
+		}
 	}
 	r.Ob("C13.R2.dedup", "TxRequest.commitTo returns the error of the deferred Commit", p.Position(fn.Pos()), okCommit, why)
 }
@@ -1250,4 +1300,13 @@ func checkObserverNoWait(r *Run, k *kvCtx) {
 	if nLoops < 2 {
 		r.Undecide("C13.R6: only %d handler loops found in x/observe Notify* (expected >= 2)", nLoops)
 	}
+}
+
+func keysOf(m map[string]bool) []string {
+	var out []string
+	for k := range m {
+		out = append(out, k)
+	}
+	sort.Strings(out)
+	return out
 }
